@@ -46,6 +46,11 @@ def tt_layer(E, s):
         layer(x)
         sd = {k: E.tensor('sd_' + k.replace('.', '_'), list(v.shape), s['dtype']) for k, v in layer.state_dict().items()}
         layer.load_state_dict(sd)
+    if s.get('replace_core') is not None:
+        # a registered core is replaced by a new Parameter object after construction (as functional / meta-learning code does)
+        k = s['replace_core']
+        layer.cores[k] = E.tn.nn.Parameter(E.tensor('wr', list(cores[k].shape), run_dt))
+        cores = [c for c in layer.cores]
     if s.get('first_batch') is not None:
         # the same layer object was used before with a different number of batch dimensions
         x0 = E.tensor('x0', list(s['first_batch']) + list(s['size_in']), run_dt)
